@@ -194,6 +194,11 @@ func runC04(r *Report, tier string) {
 	}
 	// R13.6
 	checkLabelLookups(r, "R13.6", "C04")
+	// the hash-envelope producer signs under its signer's algorithm too: the
+	// Headers it hands to Sign1 carry no caller-supplied raw protected bytes
+	// that would be signed instead of the map the gate has checked
+	r.rule("R12.3", "(shared with C12) both raw header fields of the Headers handed to Sign1 by SignHashEnvelope are nil.")
+	checkEnvelopeRawNil(r, "R12.3")
 }
 
 func sortedGates(m map[*ssa.Function]*gateInfo) []*gateInfo {
@@ -519,6 +524,35 @@ func checkDecodedAlg(r *Report, accessor *ssa.Function) {
 		}
 	}
 	o.check(uses, "calls "+shortFn(accessor), "decoder does not call "+shortFn(accessor))
+	// ... and what it writes back under label 1 is the accessor's result
+	// itself: the map the gates consult then names the algorithm that is in
+	// the signed bytes, not a translation of it
+	{
+		all := func(f func(ssa.Instruction)) {
+			for _, b := range ph.Blocks {
+				for _, x := range b.Instrs {
+					f(x)
+				}
+			}
+		}
+		np := 0
+		for _, pt := range P.putsDeep(ph, P.terms, all, 0) {
+			k := pt.key
+			if k.Op == "iface" && len(k.Args) == 1 {
+				k = k.Args[0]
+			}
+			if n, ok := termConstInt(k); !ok || n != 1 {
+				continue
+			}
+			np++
+			v := pt.val
+			for v.Op == "iface" && len(v.Args) == 1 {
+				v = v.Args[0]
+			}
+			okV := v.Op == "res" && v.S == "0" && len(v.Args) == 1 && v.Args[0].Op == "call" && v.Args[0].S == shortFn(accessor)
+			r.ob("R04.4", fmt.Sprintf("%s:retyped-value#%d", shortFn(ph), np), ph, pt.instr, "the value stored under label 1 while decoding is the accessor's result, unchanged").check(okV, truncate(v.String(), 100), "the decoder stores "+truncate(v.String(), 160)+" under label 1: the protected map would name another algorithm than the signed bytes")
+		}
+	}
 	// ... and always replaces the destination map: no alg of an earlier
 	// decode survives in Headers.Protected (shared with R19.2)
 	checkReceiverAssigned(r, "R04.4", ph)
